@@ -147,6 +147,12 @@ theorem exprF_le {r r' : Rec} (hr : Rec.le r r') (ctx : Ctx) (e : Expr) :
     | exact hb _ _ _
     | intro _)
 
+theorem emitDecl_le {r r' : Rec} (hr : Rec.le r r') (ctx : Ctx) (prop : String) (e : Expr) :
+    M.le (emitDecl r ctx prop e) (emitDecl r' ctx prop e) := by
+  unfold emitDecl
+  apply bind_le (hr.expr ctx e); intro v
+  exact M.le_refl _
+
 theorem stmtF_le {r r' : Rec} (hr : Rec.le r r') (ctx : Ctx) (s : Stmt) :
     M.le (stmtF r ctx s) (stmtF r' ctx s) := by
   have he := hr.expr
@@ -161,6 +167,8 @@ theorem stmtF_le {r r' : Rec} (hr : Rec.le r r') (ctx : Ctx) (s : Stmt) :
     | exact hl _ _ _
     | exact firstClause_le hr _ _
     | exact evalArgs_le hr _ _
+    | exact emitDecl_le hr _ _ _
+    | exact evalInterp_le (he _) _
     | apply invoke_le hr
     | apply inScope_le
     | apply forEachM_le
